@@ -691,7 +691,6 @@ func genC12(g engine.G) *engine.Case {
 
 func TestC12(t *testing.T) { runProp(t, "C12", genC12) }
 
-
 // waitOrDeadlock waits for the worker goroutines of a concurrent case. The
 // operations take microseconds; if the workers have not finished after several
 // seconds, the goroutine dump decides: when EVERY unfinished worker (a
